@@ -681,6 +681,10 @@ func (m *Machine) mkError(fr *frame, msg value) value {
 }
 
 func extAtoi(m *Machine, fr *frame, args []value) value {
+	if _, sym := args[0].(sstr); sym {
+		// symbolic digits: interpret strconv's own source
+		return m.callSource(fr.caller, fr.callpos, fr.fn, args, nil)
+	}
 	s := m.concStr(args[0], "strconv.Atoi")
 	i, e := strconv.Atoi(s)
 	if e != nil {
@@ -694,6 +698,9 @@ func extFormatInt(m *Machine, fr *frame, args []value) value {
 }
 
 func extParseInt(m *Machine, fr *frame, args []value) value {
+	if _, sym := args[0].(sstr); sym {
+		return m.callSource(fr.caller, fr.callpos, fr.fn, args, nil)
+	}
 	s := m.concStr(args[0], "strconv.ParseInt")
 	i, e := strconv.ParseInt(s, args[1].(int), args[2].(int))
 	if e != nil {
